@@ -261,10 +261,11 @@ def scenarios():
               "streams": [{"key": [1, 0, "recv"], "responses": K(1, [1])}, {"key": [1, 1, "recv"], "responses": K(1, [2])}]})
     # a receive request that turns out to be measure-directly: its qubit-id operand is a dummy register (the SDK passes C0) which
     # may hold any number - here one that names no array, and one that names an array of another length
-    for c0, nm in ((7, "no-array"), (3, "other-array")):
+    # (an array SHORTER than the number of pairs too: e.g. the one-entry qubit-id array of an earlier keep request)
+    for c0, nm, ln, n in ((7, "no-array", 5, 2), (3, "other-array", 5, 2), (3, "shorter-array", 1, 2), (3, "shorter-array-3-pairs", 2, 3)):
         S.append({"name": f"recv-measure-with-a-dummy-qubit-operand-{nm}", "apps": [{"app": 0, "unit": 2, "text":
-                  f"set C0 {c0}\n" + arr(3, 5) + arr(0, 20) + "recv_epr(1,0) C0 0\n" + wall(0, 2)}],
-                  "requests": [req(0, "recv", "M", 2, 0)], "streams": [{"key": [1, 0, "recv"], "responses": M(2)}]})
+                  f"set C0 {c0}\n" + arr(3, ln) + arr(0, 10 * n) + "recv_epr(1,0) C0 0\n" + wall(0, n)}],
+                  "requests": [req(0, "recv", "M", n, 0)], "streams": [{"key": [1, 0, "recv"], "responses": M(n)}]})
     S.append({"name": "qubit-id-array-at-address-0-reused-by-the-next-request", "apps": [{"app": 0, "unit": 3, "text":
               arr(0, 1) + stores(0, [0]) + arr(3, 10) + "recv_epr(1,0) 0 3\n" + arr(4, 10) + stores(0, [1]) + "recv_epr(1,1) 0 4\n" +
               wall(3, 1) + wall(4, 1)}],
